@@ -347,7 +347,7 @@ func wrapTry(c *vcase) *vcase {
 	a.raw(c.script...)
 	a.jmpL(opcode.ENDTRYL, "E")
 	a.label("C").pushData([]byte("C"))
-	a.label("E")
+	a.label("E").op(opcode.RET)
 	s, _ := a.bytes()
 	return &vcase{script: s, args: c.args, gas: c.gas, priced: c.priced, family: c.family}
 }
@@ -498,12 +498,21 @@ func (g *gen) heapCase() *vcase {
 			st(z)
 		case 8: // z = x[k]
 			x, z := pick("ASM"), g.r.Intn(nr)
-			if x < 0 || (kind[x] != 'M' && ln[x] == 0) || kind[x] == 'M' {
+			if x < 0 || (kind[x] != 'M' && ln[x] == 0) {
 				continue
 			}
 			ld(x)
-			idx(x)
-			a.op(opcode.PICKITEM)
+			if kind[x] == 'M' {
+				key()
+				if g.r.Intn(5) != 0 {
+					a.op(opcode.HASKEY) // a missing key must not end the program
+				} else {
+					a.op(opcode.PICKITEM)
+				}
+			} else {
+				idx(x)
+				a.op(opcode.PICKITEM)
+			}
 			st(z)
 			kind[z], ln[z] = '?', -1
 		case 9: // z = pack(x, y)
@@ -589,5 +598,167 @@ func (g *gen) heapCase() *vcase {
 		ld(i)
 	}
 	s, _ := a.bytes()
-	return &vcase{script: s, gas: genGas, priced: true, family: "heap"}
+	return &vcase{script: s, gas: 400000, priced: true, family: "heap"}
+}
+
+// mapCase: one map, a long sequence of insertions, removals and lookups with keys from a small
+// pool (so that keys are hit again), then the map, its KEYS and VALUES are dumped: ordering,
+// replacement in place, index bookkeeping after removal.
+func (g *gen) mapCase() *vcase {
+	a := newAsm()
+	a.raw(byte(opcode.INITSSLOT), 1).op(opcode.NEWMAP, opcode.STSFLD0)
+	nk := g.r.Range(2, 6)
+	keys := make([]arg, nk)
+	for i := range keys {
+		keys[i] = keyPool[g.r.Intn(len(keyPool))]
+	}
+	key := func() { g.emitPrim(a, keys[g.r.Intn(nk)]) }
+	n := g.r.Range(4, 20)
+	results := 0
+	for i := 0; i < n; i++ {
+		switch g.r.Intn(8) {
+		case 0, 1, 2, 3:
+			a.op(opcode.LDSFLD0)
+			key()
+			a.pushInt(big.NewInt(int64(i)))
+			a.op(opcode.SETITEM)
+		case 4, 5:
+			a.op(opcode.LDSFLD0)
+			key()
+			a.op(opcode.REMOVE)
+		case 6:
+			a.op(opcode.LDSFLD0)
+			key()
+			a.op(opcode.HASKEY)
+			results++
+		default: // PICKITEM guarded by HASKEY
+			l := fmt.Sprintf("m%d", i)
+			k := keys[g.r.Intn(nk)]
+			a.op(opcode.LDSFLD0)
+			g.emitPrim(a, k)
+			a.op(opcode.HASKEY).jmp(opcode.JMPIFNOT, l)
+			a.op(opcode.LDSFLD0)
+			g.emitPrim(a, k)
+			a.op(opcode.PICKITEM)
+			a.label(l)
+		}
+	}
+	a.op(opcode.LDSFLD0, opcode.DUP, opcode.KEYS, opcode.SWAP, opcode.DUP, opcode.VALUES, opcode.SWAP, opcode.UNPACK)
+	s, ok := a.bytes()
+	if !ok {
+		return g.mapCase()
+	}
+	return &vcase{script: s, gas: 400000, priced: true, family: "map"}
+}
+
+// slotCase: static / local / argument slots in every form (LDxxx0..6 and the operand form), indices
+// at and beyond the slot size, values of all kinds; optionally a called function with its own
+// locals/arguments sharing the static slot. Every slot is dumped at the end.
+func (g *gen) slotCase() *vcase {
+	a := newAsm()
+	ns, nl, na := g.r.Intn(9), g.r.Intn(9), g.r.Intn(9)
+	if g.r.Intn(10) == 0 {
+		ns = []int{7, 8, 255}[g.r.Intn(3)]
+	}
+	for i := 0; i < na; i++ {
+		a.pushInt(big.NewInt(int64(100 + i)))
+	}
+	if ns > 0 || g.r.Intn(10) == 0 {
+		a.raw(byte(opcode.INITSSLOT), byte(ns))
+	}
+	if nl+na > 0 || g.r.Intn(10) == 0 {
+		a.raw(byte(opcode.INITSLOT), byte(nl), byte(na))
+	}
+	type kindT struct {
+		ld0, st0, ld, st opcode.Opcode
+		n           int
+	}
+	kinds := []kindT{
+		{opcode.LDSFLD0, opcode.STSFLD0, opcode.LDSFLD, opcode.STSFLD, ns},
+		{opcode.LDLOC0, opcode.STLOC0, opcode.LDLOC, opcode.STLOC, nl},
+		{opcode.LDARG0, opcode.STARG0, opcode.LDARG, opcode.STARG, na},
+	}
+	emit := func(k kindT, store bool, idx int) {
+		base, long := k.ld0, k.ld
+		if store {
+			base, long = k.st0, k.st
+		}
+		if idx <= 6 && g.r.Intn(3) != 0 {
+			a.op(opcode.Opcode(int(base) + idx))
+		} else {
+			a.raw(byte(long), byte(idx))
+		}
+	}
+	pickIdx := func(n int) int {
+		if n == 0 || g.r.Intn(12) == 0 {
+			return n + g.r.Intn(2) // out of range
+		}
+		if n > 9 {
+			return []int{0, 6, 7, n - 1}[g.r.Intn(4)]
+		}
+		return g.r.Intn(n)
+	}
+	body := func(steps int) {
+		for i := 0; i < steps; i++ {
+			k := kinds[g.r.Intn(3)]
+			if k.n == 0 && g.r.Intn(6) != 0 {
+				continue
+			}
+			switch g.r.Intn(5) {
+			case 0, 1: // store a fresh value
+				switch g.r.Intn(5) {
+				case 0:
+					g.emitAny(a, 1)
+				default:
+					a.pushInt(big.NewInt(int64(g.r.Intn(50))))
+				}
+				emit(k, true, pickIdx(k.n))
+			case 2: // copy slot to slot
+				k2 := kinds[g.r.Intn(3)]
+				emit(k, false, pickIdx(k.n))
+				emit(k2, true, pickIdx(k2.n))
+			case 3: // load and keep
+				emit(k, false, pickIdx(k.n))
+			default: // increment in place
+				j := pickIdx(k.n)
+				emit(k, false, j)
+				a.op(opcode.INC)
+				emit(k, true, j)
+			}
+		}
+	}
+	body(g.r.Range(3, 14))
+	withFn := g.r.Intn(3) == 0
+	if withFn {
+		a.pushInt(big.NewInt(7)).pushInt(big.NewInt(8)).jmp(opcode.CALL, "fn")
+	}
+	dump := func() {
+		for _, k := range kinds {
+			n := k.n
+			if n > 9 {
+				n = 8
+			}
+			for i := 0; i < n; i++ {
+				emit(k, false, i)
+			}
+		}
+	}
+	dump()
+	a.op(opcode.RET)
+	if withFn {
+		a.label("fn")
+		saveL, saveA := kinds[1].n, kinds[2].n
+		kinds[1].n, kinds[2].n = g.r.Intn(4), g.r.Intn(3)
+		if kinds[1].n+kinds[2].n > 0 {
+			a.raw(byte(opcode.INITSLOT), byte(kinds[1].n), byte(kinds[2].n))
+		}
+		body(g.r.Range(2, 8))
+		a.op(opcode.RET)
+		kinds[1].n, kinds[2].n = saveL, saveA
+	}
+	s, ok := a.bytes()
+	if !ok {
+		return g.slotCase()
+	}
+	return &vcase{script: s, gas: genGas, priced: true, family: "slots"}
 }
